@@ -868,6 +868,24 @@ type wproc struct {
 	stalled  atomic.Bool
 }
 
+// syncBuf is an unbounded concurrent-safe buffer (replay child output).
+type syncBuf struct {
+	mu sync.Mutex
+	b  bytes.Buffer
+}
+
+func (s *syncBuf) Write(p []byte) (int, error) {
+	s.mu.Lock()
+	defer s.mu.Unlock()
+	return s.b.Write(p)
+}
+
+func (s *syncBuf) bytes() []byte {
+	s.mu.Lock()
+	defer s.mu.Unlock()
+	return append([]byte(nil), s.b.Bytes()...)
+}
+
 type tailBuf struct {
 	mu sync.Mutex
 	b  []byte
@@ -1497,7 +1515,7 @@ func replayLnwire(t *testing.T, run *evid.Run, path string) {
 		}
 		cmd := exec.Command(self, "-test.run", "TestC10Lnwire$")
 		cmd.Env = append(os.Environ(), "VERIF_C10_REPLAY_CHILD=1", "GOMAXPROCS=1")
-		var outBuf tailBuf
+		var outBuf syncBuf
 		cmd.Stdout, cmd.Stderr = &outBuf, &outBuf
 		err := cmd.Start()
 		if err == nil {
@@ -1519,7 +1537,7 @@ func replayLnwire(t *testing.T, run *evid.Run, path string) {
 				return
 			}
 		}
-		out := outBuf.b
+		out := outBuf.bytes()
 		var viols []violRec
 		for _, ln := range strings.Split(string(out), "\n") {
 			if strings.HasPrefix(ln, "INFO ") {
